@@ -130,6 +130,7 @@ def async_assembly_model(ctx, repo):
     from ..absint import ClassRef, Interp, Native, Obj, Opaque, PyRaise, Undecided
     fi = repo.method("GeckoAsyncStructure", "get")
     a, b, c = b"A" * 39, b"B" * 39, b"C" * 22
+    a2, b2, c2 = b"a" * 39, b"b" * 39, b"c" * 22
     full = [(0, 1, a), (1, 2, b), (2, 0, c)]
     T = "timeout"
     cases = [
@@ -138,6 +139,10 @@ def async_assembly_model(ctx, repo):
         ("middle-segment-lost", [[(0, 1, a), (2, 0, c)], full], 3, True, a + b + c, 2, "an attempt whose middle segment was lost (final segment out of sequence), followed by a complete attempt"),
         ("duplicate-segment", [[(0, 1, a), (0, 1, a), (1, 2, b), (2, 0, c)]], 3, True, a + b + c, 1, "a chain in which the first segment arrives twice"),
         ("first-lost-then-final", [[(1, 2, b), (2, 0, c)], full], 3, True, a + b + c, 2, "an attempt whose first segment was lost, followed by a complete attempt"),
+        ("partial-then-retry-after-the-block-changed", [[(0, 1, a), (1, 2, b), T], [(0, 1, a2), (1, 2, b2), (2, 0, c2)]], 3, True, a2 + b2 + c2, 2,
+         "an attempt that delivered two segments and timed out, then - the spa's block having changed meanwhile - a complete attempt with other bytes: only the second attempt's bytes may be installed"),
+        ("gap-then-retry-after-the-block-changed", [[(0, 1, a), (2, 0, c)], [(0, 1, a2), (1, 2, b2), (2, 0, c2)]], 3, True, a2 + b2 + c2, 2,
+         "an attempt with a gap, then a complete attempt carrying other bytes"),
         ("never-answered", [[T], [T]], 2, False, None, 2, "two attempts without any answer (budget 2)"),
         ("only-partial-ever", [[(0, 1, a), T], [(0, 1, a), (1, 2, b), T]], 2, False, None, 2, "two attempts that each time out part-way (budget 2)"),
     ]
@@ -408,6 +413,8 @@ def sync_assembly_model(ctx, repo):
         ("first-segment-lost-then-clean", [(R, START), (SEG, chain[1]), (SEG, chain[2])] + [(SEG, c) for c in chain], ([(START, whole)], 1, True, None),
          "a chain missing its first segment installs nothing (not an empty join either) and asks again"),
         ("duplicate-segment", [(R, START), (SEG, chain[0]), (SEG, chain[0]), (SEG, chain[1]), (SEG, chain[2])], ([(START, whole)], 0, True, None), "a duplicated segment is not installed twice"),
+        ("gap-then-clean-after-the-block-changed", [(R, START), (SEG, chain[0]), (SEG, chain[2])] + [(SEG, c) for c in chain2], ([(START, whole2)], 1, True, None),
+         "a damaged attempt followed - the spa's block having changed meanwhile - by a clean chain with other bytes: only the second chain is installed"),
         ("second-transfer-after-a-complete-one", [(R, START)] + [(SEG, c) for c in chain] + [(R, 0)] + [(SEG, c) for c in chain2], ([(START, whole), (0, whole2)], 0, True, None),
          "a second transfer installs its own chain at its own offset - nothing of the first one is left in the assembly"),
         ("gap-then-gap-again-then-clean", [(R, START), (SEG, chain[0]), (SEG, chain[2]), (SEG, chain[1]), (SEG, chain[2])] + [(SEG, c) for c in chain], ([(START, whole)], 2, True, None),
@@ -653,6 +660,9 @@ def check(ctx):
     ctx.rule("R7", "the segment payload reaches the assembler whole: the packet framing that every STATV passes through is DOTALL, its DATAS group is the last and greedy, earlier groups cannot overrun - a payload may contain any byte string, </DATAS> included (C04's framing-regex rule borrowed)")
     from .c04 import framing as _framing
     _framing(ctx.borrowed("R7", "C04", only=("R5",)), repo)
+    ctx.rule("R8", "request and segment codec: the STATU request the client builds is decoded by the peer to the same sequence number, start and length for EVERY value of those fields, and a STATV segment to the same index / next / payload (C04's symbolic round trip of the status-block messages borrowed) - a request the simulator cannot decode produces no chain at all")
+    from .c04 import round_trips as _round_trips
+    _round_trips(ctx.borrowed("R8", "C04", only=("R2",), key_prefix="GeckoStatusBlockProtocolHandler"), repo)
     async_assembly(ctx, repo)
     # the completed assembler keeps its segment list until the engine's clean-up removes the handler: the engine must
     # not dispatch a second datagram before that (engine model, vlib/enginemodel.py)
